@@ -162,7 +162,7 @@ def stuff(bs):
 
 def gen_stream(rng, cfg):
     """one stream from the families named in the quantifier of C01"""
-    fam = rng.choice(["wellformed", "bitflip", "truncated", "wronglen", "headeronly", "noise5", "noise256", "mixed", "flagdense"])
+    fam = rng.choice(["wellformed", "bitflip", "truncated", "wronglen", "headeronly", "noise5", "noise256", "mixed", "flagdense", "badhcs"])
     parts = bytearray()
     if fam in ("noise5", "flagdense"):
         alpha = [0x7E, 0x7D, 0x5E, 0x5D, 0xA0, 0x00, 0x01, 0x03, 0xFF] if fam == "noise5" else [0x7E, 0x7E, 0x7D, 0xA0, 0x07, 0x01]
@@ -182,6 +182,21 @@ def gen_stream(rng, cfg):
                 fr[pos // 8] ^= 1 << (pos % 8)
         elif this == "truncated":
             fr = fr[:rng.randrange(len(fr))]
+        elif this == "badhcs" and len(fr) > 11:
+            # header check sequence wrong, frame check sequence (over ALL octets, the wrong HCS included) right and length
+            # right: intact in the sense of C01 (validity is the length field and the FCS)
+            i = 2
+            while i < len(fr) and not fr[i] & 1:
+                i += 1
+            i += 1                                    # past the destination address
+            while i < len(fr) and not fr[i] & 1:
+                i += 1
+            hpos = i + 2                              # past the source address and the control octet
+            if hpos + 2 <= len(fr) - 2:
+                fr[hpos] ^= rng.choice([0x01, 0x80, 0x5A])
+                fr[hpos + 1] ^= rng.choice([0x00, 0x01, 0x5A])
+                c = fcs16(bytes(fr[:-2]))
+                fr[-2], fr[-1] = c & 0xFF, c >> 8
         elif this == "wronglen":
             ff = (fr[0] << 8 | fr[1])
             ln = (ff & 0x7FF) + rng.choice([-1, 1, -2, 2, 256, -256])
